@@ -483,3 +483,47 @@ func (p *Prog) ReachNil(roots []*ssa.Function, o ReachOpts) (map[*ssa.Function]b
 	}
 	return seenFn, parent
 }
+
+// Infeasible exposes the nil-specialised block feasibility test.
+func (p *Prog) Infeasible(b *ssa.BasicBlock, ctx NilCtx) bool { return p.infeasible(b, ctx) }
+
+// Key renders a NilCtx canonically.
+func (c NilCtx) Key() string { return c.key() }
+
+// ArgNilCtx computes the nil-ness context a call site gives its callee: fresh allocations and
+// literal nils, or the caller's own context for parameters passed through.
+func (p *Prog) ArgNilCtx(f *ssa.Function, site ssa.Instruction, callerCtx NilCtx) NilCtx {
+	c := CallOf(site)
+	if c == nil {
+		return nil
+	}
+	var ctx NilCtx
+	off := 0
+	if c.IsInvoke() {
+		off = 1
+	}
+	for i, a := range c.Args {
+		switch a.Type().Underlying().(type) {
+		case *types.Pointer, *types.Interface, *types.Map, *types.Slice:
+		default:
+			continue
+		}
+		st := Unknown
+		if par, ok := a.(*ssa.Parameter); ok && par.Parent() == f {
+			for k, q2 := range f.Params {
+				if q2 == par {
+					st = callerCtx[k]
+				}
+			}
+		} else {
+			st = p.ValState(a, site.Block(), nil)
+		}
+		if st != Unknown {
+			if ctx == nil {
+				ctx = NilCtx{}
+			}
+			ctx[i+off] = st
+		}
+	}
+	return ctx
+}
